@@ -27,7 +27,9 @@ RULE = ("one run = one seeded wallet history: 1..2 HD (or single-key) accounts, 
         "outputs of the funding account (the txo_spend pattern): sweeps and payments the pre-chosen input does not "
         "cover; and 10 % of the runs are boundary histories for the sqlite chooser (funding gaps of 1..11 dewies, "
         "outputs of 10**14-1..10**17 dewies, costs covered exactly or with less than one change-output fee to "
-        "spare). Non-trivial = at least two builds of which one succeeded after a coin selection; distinct = "
+        "spare); (purchase, 25 %, on either kind of history) 1..3 RECEIVED purchase payments - output 0 of a purchase "
+        "transaction, filed as txo_type purchase by the real save path - then payments that need them. "
+        "Non-trivial = at least two builds of which one succeeded after a coin selection; distinct = "
         "distinct event-trace digest.")
 COMPONENTS = {
     'real': ['lbry.wallet.transaction.Transaction.create/pay/claim_create/support/purchase/sign',
@@ -58,7 +60,8 @@ EXPECTED_PROBES = ['build_ok', 'build_refused', 'change_output_present', 'no_cha
                    'name_fee_dominates', 'released', 'broadcast', 'later_release_or_broadcast',
                    'two_account_funding', 'change_on_new_address', 'unconfirmed_input_used', 'api_call',
                    'inputs_ge_5', 'spent_change_of_earlier_build', 'o7_with_dust_present', 'sqlite_margin_refusal',
-                   'sqlite_tiny_deficit', 'sqlite_huge_output_available', 'prechosen_unreserved_build']
+                   'sqlite_tiny_deficit', 'sqlite_huge_output_available', 'prechosen_unreserved_build',
+                   'purchase_output_spent', 'o7_with_purchase_outputs']
 
 DUST = W.DUST
 
@@ -146,21 +149,43 @@ def gen(run_seed, tier):
           'ops': ops}
     # ---- a tenth of the runs is a boundary history for the sqlite chooser, drawn from its own stream ----------
     rs = stream('C03.gen.sqlite_bounds', run_seed)
-    if rs.random() < 0.10 and not heavy:
-        return _gen_sqlite_bounds(rs, sc)
-    # ---- features appended to the base history; each owns its PRNG stream, the base prefix stays what it was ----
     features = []
-    rd = stream('C03.gen.dust', run_seed)
-    if rd.random() < 0.20 and not heavy:
-        features.append('dust')
-        _append_dust(rd, sc, rate, n_accounts)
-    rp = stream('C03.gen.prechosen', run_seed)
-    if rp.random() < 0.20 and not heavy:
-        features.append('prechosen')
-        _append_prechosen(rp, sc, rate, n_accounts)
+    if rs.random() < 0.10 and not heavy:
+        sc = _gen_sqlite_bounds(rs, sc)
+        features.append('sqlite_bounds')
+    else:
+        # ---- features appended to the base history; each owns its PRNG stream, the base prefix stays what it was
+        rd = stream('C03.gen.dust', run_seed)
+        if rd.random() < 0.20 and not heavy:
+            features.append('dust')
+            _append_dust(rd, sc, rate, n_accounts)
+        rp = stream('C03.gen.prechosen', run_seed)
+        if rp.random() < 0.20 and not heavy:
+            features.append('prechosen')
+            _append_prechosen(rp, sc, rate, n_accounts)
+    rq = stream('C03.gen.purchase_funds', run_seed)
+    if rq.random() < 0.25 and not heavy:
+        features.append('purchase')
+        _append_purchase_funds(rq, sc, sc['fee_per_byte'], sc['n_accounts'])
     if features:
         sc['family'] = 'seq+' + '+'.join(features)
     return sc
+
+
+def _append_purchase_funds(r, sc, rate, n_accounts):
+    """Payments RECEIVED for paid content: output 0 of a purchase transaction, which the real save path files as
+    txo_type 'purchase' (spendable by the wallet's own definition), then payments that need them."""
+    coc = W.cost_of_change(rate)
+    acct = r.randrange(n_accounts)
+    for _ in range(r.choice([1, 2, 3])):
+        sc['ops'].append({'op': 'fund', 'acct': acct, 'purchase': True, 'height': r.choice([40, 40, 5, 0]), 'gap': True,
+                          'outs': [[0, r.randrange(12), r.choice([10 ** 8, 3 * 10 ** 8, 5 * 10 ** 8, 10 ** 9])]]})
+    for _ in range(r.choice([1, 2, 3])):
+        amount = r.choice([['total', -r.randrange(0, 4 * coc + 2)], ['total', -r.randrange(0, 4 * coc + 2)],
+                           ['frac', 0.9], ['frac', 0.5], ['abs', 10 ** 8]])
+        sc['ops'].append({'op': 'create', 'funding': [acct], 'change': acct, 'sign': r.random() < 0.5, 'api': False,
+                          'then': r.choice(['release', 'release', 'broadcast']), 'bheight': 0, 'gap': True,
+                          'outputs': [{'k': 'pay', 'ext': r.randrange(1000), 'amount': amount}]})
 
 
 def _append_dust(r, sc, rate, n_accounts):
@@ -440,6 +465,8 @@ def execute(scenario, keep_trace=False):
             run.probes['outputs_ge_50'] += 1
         if any(op in change_ops for op in in_ops):
             run.probes['spent_change_of_earlier_build'] += 1
+        if any(sim.utxos[op].purchase for op in in_ops):
+            run.probes['purchase_output_spent'] += 1
         if added:
             stats['ok_after_selection'] += 1
         return None
@@ -475,6 +502,8 @@ def execute(scenario, keep_trace=False):
         dust_present = len(avail) != len(avail_all)
         if dust_present:
             run.probes['o7_with_dust_present'] += 1
+        if any(u.purchase for u in avail):
+            run.probes['o7_with_purchase_outputs'] += 1
         total = sum(effs)
         s = sim.strategy
         boundary = 'dust' if dust_present else 'none'
@@ -492,8 +521,11 @@ def execute(scenario, keep_trace=False):
             if any(u.amount >= 10 ** 12 for u in avail):
                 run.probes['sqlite_huge_output_available'] += 1
             # which of the chooser's own rules explains the refusal (attribution only, not a relaxation)
+            plain_total = sum(x for x, u in zip(effs, avail) if not u.purchase)
             if deficit < 10:
                 boundary = 'tiny_deficit'
+            elif plain_total < deficit <= total:
+                boundary = 'purchase_outputs'   # needs received purchase payments (txo_type purchase)
             elif total < deficit + margin:
                 boundary = 'within_change_fee'
                 pairs = [(u.amount, u.amount - sf) for u in avail]
